@@ -1297,9 +1297,11 @@ class Unit:
             sig = "fn %s<F: %s>(%s%sdbs: &Arc<Databases>, client: &Client, opp: &F) -> (r: Response)" % (
                 name, ftype, ", ".join(params), ", " if params else "")
         else:
-            sig = "fn %s(%s%sdbs: %s, client: &%sClient) -> (r: Response)" % (
+            # extra=`tok: &mut T`: one more (token) parameter - a hidden object made explicit (R6), e.g. the published $connections value in unit sessions
+            extra = next((o.split("=", 1)[1] for o in opts if o.startswith("extra=")), None)
+            sig = "fn %s(%s%sdbs: %s, client: &%sClient%s) -> (r: Response)" % (
                 name, ", ".join(params), ", " if params else "", "&mut Databases" if "mutdbs" in opts else "&Arc<Databases>",
-                "mut " if "mutclient" in opts else "")
+                "mut " if "mutclient" in opts else "", (", " + extra) if extra else "")
         return self._emit_arm_fn(rel, variant, name, sig, block, new_expr, expr, src_line, "%s:arm Request::%s (source)" % (rel, variant))
 
     def _emit_arm_fn(self, rel, variant, name, sig, block, new_expr, expr, src_line, diff_title):
